@@ -193,6 +193,10 @@ class C17(Property):
         ("antismash/detection/hmm_detection/__init__.py", "get_ruleset"),
         ("antismash/common/hmmscan_refinement.py", "gather_by_query"),
         ("antismash/common/hmmscan_refinement.py", "refine_hmmscan_results"),
+        ("antismash/common/hmmscan_refinement.py", "_merge_domain_list"),
+        ("antismash/common/hmmscan_refinement.py", "_remove_overlapping"),
+        ("antismash/common/hmmscan_refinement.py", "_merge_immediate_neigbours"),
+        ("antismash/common/hmmscan_refinement.py", "remove_incomplete"),
         ("antismash/common/hmmscan_refinement.py", "HMMResult.__hash__"),
         ("antismash/common/hmmscan_refinement.py", "HMMResult.__eq__"),
         ("antismash/common/hmmer.py", "remove_overlapping"),
@@ -284,11 +288,17 @@ class C17(Property):
                 start = rng.choice([10, 10, 50, 100])
                 end = start + rng.choice([100, 100, 150, 200])
             protos.append([start, end, 0])
+        if cross and rng.random() < 0.5:
+            # twins after the origin: one product, one area (start < half the record), different cores
+            start, end = rng.choice([10, 20]), rng.choice([60, 90])
+            protos.append([start, end, 0])
+            protos.append([start, end, 0])
         tie = rng.random() < 0.05
+        twins = rng.random() < 0.35          # same product on the same coordinates, different cores (D64: in scope)
         for i, p in enumerate(protos):
             same = [q for q in protos[:i] if q[0] == p[0] and q[1] == p[1]]
             free = [k for k in range(len(PRODS)) if k not in [q[2] for q in same]]
-            if same and (tie or not free):
+            if same and (tie or twins or not free):
                 p[2] = same[0][2]
             else:
                 p[2] = rng.choice(free)
@@ -598,6 +608,11 @@ class C17(Property):
                 ps.append([prods[(2 + k) % 5], cs, cs + 10, nb])
             if rng.random() < 0.3:
                 ps.append([rng.choice(prods), 100, 110, 20])
+            if rng.random() < 0.45:
+                # twins after the origin inside the origin-spanning region: one product, one area, different cores
+                twin = rng.choice(prods)
+                ps.append([twin, 20, 30, 12])
+                ps.append([twin, 22, 28, 14])
             subs = [[930, 975]] if rng.random() < 0.3 else []
             order = list(range(len(ps)))
             if rng.random() < 0.5:
@@ -759,17 +774,17 @@ class C17(Property):
         known = None
         in_scope = bool(drv.get("scope", True))
         spec = same and bool(drv.get("spec", True))
-        if kind == "uniq" and (drv["tie"] or drv["tie_nocore"]):
-            # `tie`: two members agree on the whole key — outside the theorem's hypothesis;
-            # `tie_nocore`: same product, same coordinates, different cores — decided by the core since D64 (the
-            # model); a tree without fixes/D64 lists them in address order: the open finding until it is applied.
-            # In both classes any listing in (start, -len, product) order is accepted.
-            tags.append("key-tie" if drv["tie"] else "key-tie-without-core")
-            weak = bool(drv["spec"]) or bool(drv["spec_nocore"])
-            corr = corr or weak
-            spec = same and weak
+        if kind == "uniq" and drv["tie"]:
+            # two members agree on the whole key (start, -len, product, core): outside the theorem's hypothesis,
+            # any listing in key order is as good as the model's
+            tags.append("key-tie")
+            corr = corr or bool(drv["spec"])
             if not same:
                 known = KF_KEY_TIE
+        elif kind == "uniq" and drv["tie_nocore"]:
+            tags.append("same-product-twins")      # decided by the core (D64)
+            if case.get("circ"):
+                tags.append("same-product-twins-cross-origin")
         if kind == "best":
             if drv["model"] != drv["model_rev"]:
                 return Judgement(False, False, True, None, False, (kind, "model-not-invariant"), str(drv))
@@ -926,7 +941,16 @@ class C17(Property):
         if rng.random() < 0.5:
             # D11's shape: several profiles, same interval, same score
             s, e = rng.choice([0, 5]), rng.choice([50, 100])
-            genes.append([[p, s, e, 1, 300] for p in rng.sample(range(6), rng.choice([2, 3, 4]))])
+            profs = rng.sample(range(6), rng.choice([2, 3, 4]))
+            gene = [[p, s, e, 1, 300] for p in profs]
+            if rng.random() < 0.7:
+                # … and one of the profiles hits the gene a second time (a fragment further along, or one that
+                # merges with the first): `_merge_domain_list` then really has categories to walk
+                far = rng.random() < 0.5
+                lo = e + (lens[profs[0]] * 2 if far else 1)
+                gene.append([profs[0], lo, lo + rng.choice([5, 10]), 1, rng.choice([100, 300])])
+                rng.shuffle(gene)
+            genes.append(gene)
         return {"kind": "refine", "lens": lens, "nb": rng.random() < 0.5, "genes": genes}
 
     def gen_filter(self, rng: random.Random) -> Dict[str, Any]:
